@@ -209,6 +209,7 @@ def rule_change_findings(ctx, rep):
                     rep.check("R-CHANGE-FINDINGS", fn.qname, where, not used_by_sast, "no-findings",
                               "Change is built without findings= in a transformer used by a remediation codemod")
                     continue
+                fd = r.expand(fd)  # `findings = ...get_findings_for_location(n); Change(..., findings=findings)`
                 look = [x for x in ast.walk(fd) if isinstance(x, ast.Call) and last_attr(x.func) == "get_findings_for_location" and x.args]
                 params = set(fn.params())
                 ok = True
@@ -309,27 +310,38 @@ def rule_match_columns(ctx, rep):
         min_instances=2,
     )
     fn = ctx.prog.func("codemodder.result.Result.match_location")
-    rets = [n.value for n in walk_no_nested(fn.node) if isinstance(n, ast.Return) and n.value is not None]
-    ok = bool(rets)
+    pp = fn.positional_params()
+    P = pp[1] if len(pp) > 1 else "pos"
+    fa = ctx.flow(fn)
+    ok = False
     why = ""
-    for rv in rets:
-        pred = rv
+    n_accepting = 0
+    for ex in fa.exits:
+        if ex.kind != "return" or ex.value is None:
+            continue
+        rv = ex.value
+        if isinstance(rv, ast.Constant) and not rv.value:
+            continue  # rejecting exit
+        pred = None
         if isinstance(rv, ast.Call) and call_name(rv) == "any" and rv.args and isinstance(rv.args[0], (ast.GeneratorExp, ast.ListComp)):
             pred = rv.args[0].elt
-        elif isinstance(rv, ast.Constant) and rv.value is False:
-            continue
-        for conj in _dnf(pred):
-            txt = " && ".join(unparse(x) for x in conj)
-            has_line = "same_line(" in txt or ("start.line" in txt and "end.line" in txt)
-            has_cols = "pos.start.column" in txt and "pos.end.column" in txt
-            if not (has_line and has_cols):
-                ok = False
-                why = f"disjunct `{txt[:80]}` accepts a location without comparing line, start column and end column"
-    # other returns / early exits that accept
-    extra_true = [n for n in walk_no_nested(fn.node) if isinstance(n, ast.Return) and isinstance(n.value, ast.Constant) and n.value.value is True]
-    if extra_true:
-        ok = False
-        why = "an unconditional `return True` path exists"
+            extra = [c for g in rv.args[0].generators for c in g.ifs]
+        elif isinstance(rv, ast.Constant):
+            extra = []
+        else:
+            pred = rv
+            extra = []
+        for must, _may in ex.state.parts:
+            held = [txt for pol, txt in must if pol and not txt.startswith(("EV:", "MATCH:", "ITER:"))]
+            held += [unparse(c) for c in extra]
+            for conj in (_dnf(pred) if pred is not None else [[]]):
+                n_accepting += 1
+                txt = " && ".join(held + [unparse(x) for x in conj])
+                has_line = "same_line(" in txt or (".start.line" in txt and ".end.line" in txt)
+                has_cols = f"{P}.start.column" in txt and f"{P}.end.column" in txt
+                if not (has_line and has_cols):
+                    why = f"a location is accepted under `{txt[:100] or 'no condition'}`: line, start column and end column are not all compared"
+    ok = n_accepting > 0 and not why
     rep.check("R-MATCH-COLUMNS", fn.qname, fn.loc(), ok, "line+columns", why or "match_location has no recognisable predicate")
     # helper predicates used by it keep their meaning
     sl = ctx.prog.func("codemodder.result.same_line")
